@@ -81,5 +81,9 @@ def run(chk: Check) -> None:
     from .c05 import run_operate
     chk.rule("C02.R4", "an equation holds exactly when its two sides are equal (EqualExpression.operate)", minimum=2)
     run_operate(chk, prog, only=("EqualExpression",), r1="C02.R4", r6=None)
+    # contracts of other parts of the library this check takes for granted (summaries, token model, reference grammar):
+    # the clauses that check the source against them, replayed under this property (props/contracts.py)
+    from .contracts import run_contracts
+    run_contracts(chk, prog, ['clone', 'evaluate'])
     chk.exhaustive = True
     chk.max_undecided = 0
